@@ -11,6 +11,7 @@
 //!   V  | dom | vid | dump
 //!   I  | dom | vid | iter_pk | for_each_key visit order | keys scanned from the Display string | for_any_key(first key)
 //!      | short-circuit: j : result : visited      (predicate false exactly on the j-th key of iter_pk)
+//!   C  | dom | vid | 1/0/both-fail              translate(rename) then translate(shift) == translate(shift . rename)
 //!   T  | dom | vid | mapid | result | calls | type kept | script = byte-level substitution | translated == original
 //!      result: OK <dump> / ET <call index> / EO <class> / PANIC
 use crate::ast::{self, hex, CtxInfo, Gen, Key, Rng, World, B, N_KEYS, N_PRE};
@@ -233,6 +234,18 @@ impl<'a> Translator<Key> for MapTr<'a> {
             None => Err(n),
         }
     }
+    translate_hash_clone!(Key);
+}
+
+/// a second-stage translator on keys of the universe (for the composition check)
+struct ShiftTr<'a> {
+    ku: &'a KeyU,
+    f: &'a dyn Fn(usize) -> usize,
+}
+impl<'a> Translator<Key> for ShiftTr<'a> {
+    type TargetPk = Key;
+    type Error = usize;
+    fn pk(&mut self, pk: &Key) -> Result<Key, usize> { Ok(self.ku.key((self.f)(self.ku.index(pk)))) }
     translate_hash_clone!(Key);
 }
 
@@ -549,6 +562,36 @@ fn run_ms<Ctx: ScriptContext>(w: &World, seed: u64, ci: CtxInfo, dom: &str, nval
                 script_ok,
                 eq_orig
             );
+        }
+        // ---- composition: rename, then a permutation of the target keys, against the composed mapping in one go
+        {
+            let rename = mappings(&mut rng, ci.tap, ci.legacy_like, &[], &[]).into_iter().find(|x| x.name == "rename").unwrap();
+            let shift = |j: usize| -> usize {
+                if j >= 108 {
+                    108 + (j - 108 + 1) % 6
+                } else if j >= 106 {
+                    j
+                } else if j >= 100 {
+                    100 + (j - 100 + 1) % 6
+                } else {
+                    j
+                }
+            };
+            let second = ShiftTr { ku: &ku, f: &shift };
+            let composed = Mapping { name: "composed".into(), fp: rename.fp.iter().map(|x| x.map(shift)).collect(), fail_at: None };
+            let r = catch_unwind(AssertUnwindSafe(|| {
+                let mut t1 = MapTr { m: &rename, ku: &ku, calls: vec![] };
+                let mut t2 = second;
+                let mut t3 = MapTr { m: &composed, ku: &ku, calls: vec![] };
+                let a = m.translate_pk(&mut t1).ok().and_then(|x| x.translate_pk(&mut t2).ok());
+                let b = m.translate_pk(&mut t3).ok();
+                match (a, b) {
+                    (Some(a), Some(b)) => format!("{}", (gdump_str(&a.node, &kn) == gdump_str(&b.node, &kn) && a == b) as u8),
+                    (None, None) => "both-fail".to_string(),
+                    _ => "0".to_string(),
+                }
+            }));
+            println!("C | {} | {} | {}", dom, vid, r.unwrap_or_else(|_| "PANIC".into()));
         }
         // ---- string keys -> concrete keys (through the text form), identity and renaming
         if !has_raw {
